@@ -541,6 +541,37 @@ class Check(core.CheckBase):  # pylint: disable=too-many-public-methods
                                                     'None (milliseconds=%s) composed as %s' % (milliseconds, bytes(composer.composed).hex()), case))
                 except Exception as e:  # pylint: disable=broad-except
                     found.append(self.violation('timestamp|sentinel-compose|size=%d' % item_size, repr(e), case))
+        found.extend(self.fixed_width_instants(case))
+        return found
+
+    def fixed_width_instants(self, case):
+        """In a field that is always an instant (gmt_unix_time, RRSIG expiration / inception) every 32-bit value is one,
+        the largest included: all-ones is not "no value" there."""
+        from vmon.ref import dns as ref_dns  # pylint: disable=import-outside-toplevel
+        import cryptoparser.dnsrec.record as record  # pylint: disable=import-outside-toplevel
+        found = []
+        for seconds in (2 ** 32 - 1, 2 ** 32 - 2, 2 ** 31, 0):
+            want = datetime.datetime.fromtimestamp(seconds, UTC)
+            readers = (
+                ('hello-random', lambda: self.sub.TlsHandshakeHelloRandom.parse_exact_size(seconds.to_bytes(4, 'big') + bytes(28)).time),
+                ('rrsig-expiration', lambda: record.DnsRecordRrsig.parse_exact_size(
+                    ref_dns.rrsig(1, 8, 2, 3600, seconds, 5, 7, [b'example', b'com'], b'\x01' * 8)).signature_expiration),
+                ('rrsig-inception', lambda: record.DnsRecordRrsig.parse_exact_size(
+                    ref_dns.rrsig(1, 8, 2, 3600, 5, seconds, 7, [b'example', b'com'], b'\x01' * 8)).signature_inception),
+            )
+            for field, reader in readers:
+                self.stats['fixed_width_instants_read'] += 1
+                self.observe(('fixed-instant', field, seconds), True, {'kind': 'timestamp-sentinel', 'field': field, 'seconds': seconds})
+                try:
+                    got = reader()
+                except Exception as e:  # pylint: disable=broad-except
+                    found.append(self.violation('timestamp|fixed-field-raises|%s' % field,
+                                                '%s holding %d (%s) cannot be read: %r' % (field, seconds, want.isoformat(), e), case))
+                    continue
+                if not isinstance(got, datetime.datetime) or (got.replace(tzinfo=UTC) if got.tzinfo is None else got) != want:
+                    found.append(self.violation('timestamp|fixed-field-wrong|%s' % field,
+                                                '%s holding %d is read as %r, the instant is %s' % (field, seconds, got, want.isoformat()),
+                                                case))
         return found
 
     def floors(self):
